@@ -111,53 +111,53 @@ Definition p_v2s (n : nat) : parser (list vec2) :=
 (* ================================================================ CFrame rotation ids *)
 (* doc (CFrame): "If the ID is not 00, it will be a value from the following table. ... Rotations in this table are in
    degrees and are applied in the order Y -> X -> Z."  The table of the document, verbatim: *)
-Definition ra (id : N) (x y z : Z) : N * (Z * Z * Z) := (id, (x, y, z)).
+Definition bs_ra (id : N) (x y z : Z) : N * (Z * Z * Z) := (id, (x, y, z)).
 Definition bs_rot_angles : list (N * (Z * Z * Z)) :=
-  [ ra 0x02 0 0 0;  ra 0x14 0 180 0;
-    ra 0x03 90 0 0;  ra 0x15 (-90) (-180) 0;
-    ra 0x05 0 180 180;  ra 0x17 0 0 180;
-    ra 0x06 (-90) 0 0;  ra 0x18 90 180 0;
-    ra 0x07 0 180 90;  ra 0x19 0 0 (-90);
-    ra 0x09 0 90 90;  ra 0x1b 0 (-90) (-90);
-    ra 0x0a 0 0 90;  ra 0x1c 0 (-180) (-90);
-    ra 0x0c 0 (-90) 90;  ra 0x1e 0 90 (-90);
-    ra 0x0d (-90) (-90) 0;  ra 0x1f 90 90 0;
-    ra 0x0e 0 (-90) 0;  ra 0x20 0 90 0;
-    ra 0x10 90 (-90) 0;  ra 0x22 (-90) 90 0;
-    ra 0x11 0 90 180;  ra 0x23 0 (-90) 180 ].
+  [ bs_ra 0x02 0 0 0;  bs_ra 0x14 0 180 0;
+    bs_ra 0x03 90 0 0;  bs_ra 0x15 (-90) (-180) 0;
+    bs_ra 0x05 0 180 180;  bs_ra 0x17 0 0 180;
+    bs_ra 0x06 (-90) 0 0;  bs_ra 0x18 90 180 0;
+    bs_ra 0x07 0 180 90;  bs_ra 0x19 0 0 (-90);
+    bs_ra 0x09 0 90 90;  bs_ra 0x1b 0 (-90) (-90);
+    bs_ra 0x0a 0 0 90;  bs_ra 0x1c 0 (-180) (-90);
+    bs_ra 0x0c 0 (-90) 90;  bs_ra 0x1e 0 90 (-90);
+    bs_ra 0x0d (-90) (-90) 0;  bs_ra 0x1f 90 90 0;
+    bs_ra 0x0e 0 (-90) 0;  bs_ra 0x20 0 90 0;
+    bs_ra 0x10 90 (-90) 0;  bs_ra 0x22 (-90) 90 0;
+    bs_ra 0x11 0 90 180;  bs_ra 0x23 0 (-90) 180 ].
 
 (* exact sine and cosine of a multiple of 90 degrees *)
-Definition cosd (a : Z) : Z := (match a mod 360 with 0 => 1 | 180 => -1 | _ => 0 end)%Z.
-Definition sind (a : Z) : Z := (match a mod 360 with 90 => 1 | 270 => -1 | _ => 0 end)%Z.
-Definition zmat := (Z * Z * Z * (Z * Z * Z) * (Z * Z * Z))%type.          (* rows *)
-Definition zmat_mul (a b : zmat) : zmat :=
+Definition bs_cosd (a : Z) : Z := (match a mod 360 with 0 => 1 | 180 => -1 | _ => 0 end)%Z.
+Definition bs_sind (a : Z) : Z := (match a mod 360 with 90 => 1 | 270 => -1 | _ => 0 end)%Z.
+Definition bs_zmat := (Z * Z * Z * (Z * Z * Z) * (Z * Z * Z))%type.          (* rows *)
+Definition bs_zmat_mul (a b : bs_zmat) : bs_zmat :=
   let '(a00, a01, a02, (a10, a11, a12), (a20, a21, a22)) := a in
   let '(b00, b01, b02, (b10, b11, b12), (b20, b21, b22)) := b in
   ((a00*b00 + a01*b10 + a02*b20, a00*b01 + a01*b11 + a02*b21, a00*b02 + a01*b12 + a02*b22,
     (a10*b00 + a11*b10 + a12*b20, a10*b01 + a11*b11 + a12*b21, a10*b02 + a11*b12 + a12*b22),
     (a20*b00 + a21*b10 + a22*b20, a20*b01 + a21*b11 + a22*b21, a20*b02 + a21*b12 + a22*b22)))%Z.
-Definition rot_x (a : Z) : zmat := (1, 0, 0, (0, cosd a, - sind a), (0, sind a, cosd a))%Z.
-Definition rot_y (a : Z) : zmat := (cosd a, 0, sind a, (0, 1, 0), (- sind a, 0, cosd a))%Z.
-Definition rot_z (a : Z) : zmat := (cosd a, - sind a, 0, (sind a, cosd a, 0), (0, 0, 1))%Z.
+Definition bs_rot_x (a : Z) : bs_zmat := (1, 0, 0, (0, bs_cosd a, - bs_sind a), (0, bs_sind a, bs_cosd a))%Z.
+Definition bs_rot_y (a : Z) : bs_zmat := (bs_cosd a, 0, bs_sind a, (0, 1, 0), (- bs_sind a, 0, bs_cosd a))%Z.
+Definition bs_rot_z (a : Z) : bs_zmat := (bs_cosd a, - bs_sind a, 0, (bs_sind a, bs_cosd a, 0), (0, 0, 1))%Z.
 (* "applied in the order Y -> X -> Z": the matrix Ry * Rx * Rz (CFrame.fromEulerAnglesYXZ) *)
-Definition zmat_of_angles (t : Z * Z * Z) : zmat :=
-  let '(x, y, z) := t in zmat_mul (zmat_mul (rot_y y) (rot_x x)) (rot_z z).
+Definition bs_zmat_of_angles (t : Z * Z * Z) : bs_zmat :=
+  let '(x, y, z) := t in bs_zmat_mul (bs_zmat_mul (bs_rot_y y) (bs_rot_x x)) (bs_rot_z z).
 (* entries are exactly 0, 1 or -1: as f32 bit patterns (+0.0, 1.0, -1.0) *)
-Definition f32_of_unit (z : Z) : f32 := (match z with 1%Z => F32_ONE | (-1)%Z => F32_NEG_ONE | _ => F32_ZERO end).
-Definition mat3_of_zmat (m : zmat) : mat3 :=
+Definition bs_f32_of_unit (z : Z) : f32 := (match z with 1%Z => F32_ONE | (-1)%Z => F32_NEG_ONE | _ => F32_ZERO end).
+Definition bs_mat3_of_zmat (m : bs_zmat) : mat3 :=
   let '(a, b, c, (d, e, f), (g, h, i)) := m in
-  mkM3 (mkV3 (f32_of_unit a) (f32_of_unit b) (f32_of_unit c))
-       (mkV3 (f32_of_unit d) (f32_of_unit e) (f32_of_unit f))
-       (mkV3 (f32_of_unit g) (f32_of_unit h) (f32_of_unit i)).
+  mkM3 (mkV3 (bs_f32_of_unit a) (bs_f32_of_unit b) (bs_f32_of_unit c))
+       (mkV3 (bs_f32_of_unit d) (bs_f32_of_unit e) (bs_f32_of_unit f))
+       (mkV3 (bs_f32_of_unit g) (bs_f32_of_unit h) (bs_f32_of_unit i)).
 Definition bs_rot_table : list (N * mat3) :=
-  List.map (fun e => (fst e, mat3_of_zmat (zmat_of_angles (snd e)))) bs_rot_angles.
+  List.map (fun e => (fst e, bs_mat3_of_zmat (bs_zmat_of_angles (snd e)))) bs_rot_angles.
 
-Definition vec3_eqb (a b : vec3) : bool := N.eqb (vx a) (vx b) && N.eqb (vy a) (vy b) && N.eqb (vz a) (vz b).
-Definition mat3_eqb (a b : mat3) : bool := vec3_eqb (mx a) (mx b) && vec3_eqb (my a) (my b) && vec3_eqb (mz a) (mz b).
+Definition bs_vec3_eqb (a b : vec3) : bool := N.eqb (vx a) (vx b) && N.eqb (vy a) (vy b) && N.eqb (vz a) (vz b).
+Definition bs_mat3_eqb (a b : mat3) : bool := bs_vec3_eqb (mx a) (mx b) && bs_vec3_eqb (my a) (my b) && bs_vec3_eqb (mz a) (mz b).
 Fixpoint rot_by_id (t : list (N * mat3)) (id : N) : option mat3 :=
   match t with [] => None | (i, m) :: r => if N.eqb i id then Some m else rot_by_id r id end.
 Fixpoint id_by_rot (t : list (N * mat3)) (m : mat3) : option N :=
-  match t with [] => None | (i, m') :: r => if mat3_eqb m' m then Some i else id_by_rot r m end.
+  match t with [] => None | (i, m') :: r => if bs_mat3_eqb m' m then Some i else id_by_rot r m end.
 
 (* doc (CFrame): "If the byte is 00 ... | ID u8 Always 00 | Orientation Array of 9 f32 values: R00 R01 R02 R10 R11 R12
    R20 R21 R22, in that order | ... the Orientation field is stored as nine untransformed IEEE-754 standard 32-bit
@@ -470,7 +470,7 @@ Definition END_MAGIC : bytes := [60; 47; 114; 111; 98; 108; 111; 120; 62].
 
 (* doc (INST): | Class ID u32 | Class Name String | Object Format u8 | Instance Count u32 | Referents Array(Referent) |
    Service Markers Array(u8) "1 for each instance if the class is a service, otherwise not present" | *)
-Record bs_class := mkClass { bc_id : N; bc_name : bytes; bc_service : bool; bc_refs : list Z; bc_markers : list N }.
+Record bs_class := mkClass { cls_id : N; cls_name : bytes; cls_service : bool; cls_refs : list Z; cls_markers : list N }.
 
 Inductive bs_body :=
 | BValues (c : bs_column)
@@ -497,8 +497,8 @@ Definition bs_enc_item (rd : bs_reading) (use_ids : bool) (it : bs_item) : bytes
   | IMeta l => (NAME_META, e_len l ++ flat_map e_pair l)
   (* doc (SSTR): | Version u32 (always 0) | Shared String Count u32 | Strings |, entry = | MD5 Hash 16 bytes | Shared String String | *)
   | ISstr l => (NAME_SSTR, e_u32 0 ++ e_len l ++ flat_map e_sstr_entry l)
-  | IInst c => (NAME_INST, e_u32 (bc_id c) ++ e_string (bc_name c) ++ [e_bool (bc_service c)] ++ e_len (bc_refs c)
-                           ++ enc_ref_array (bc_refs c) ++ bc_markers c)
+  | IInst c => (NAME_INST, e_u32 (cls_id c) ++ e_string (cls_name c) ++ [e_bool (cls_service c)] ++ e_len (cls_refs c)
+                           ++ enc_ref_array (cls_refs c) ++ cls_markers c)
   | IProp p => (NAME_PROP, e_u32 (bp_class p) ++ e_string (bp_name p) ++
                            match bp_body p with
                            | BValues c => bs_col_type c :: bs_enc_col rd use_ids c
@@ -563,7 +563,7 @@ Definition bs_parse_item (rd : bs_reading) (seen : list (N * nat)) (name data : 
   else Ok (IUnknown name data).
 
 Definition seen_add (seen : list (N * nat)) (it : bs_item) : list (N * nat) :=
-  match it with IInst c => (bc_id c, length (bc_refs c)) :: seen | _ => seen end.
+  match it with IInst c => (cls_id c, length (cls_refs c)) :: seen | _ => seen end.
 
 Fixpoint bs_parse_items (rd : bs_reading) (seen : list (N * nat)) (chunks : list (bytes * bytes)) : res (list bs_item) :=
   match chunks with
@@ -586,35 +586,35 @@ Record bs_file := mkFile {
   bf_unknown : list (bytes * bytes)           (* chunks with other names, in file order *)
 }.
 
-Definition metas (items : list bs_item) := flat_map (fun it => match it with IMeta l => [l] | _ => [] end) items.
-Definition sstrs (items : list bs_item) := flat_map (fun it => match it with ISstr l => [l] | _ => [] end) items.
-Definition insts (items : list bs_item) := flat_map (fun it => match it with IInst c => [c] | _ => [] end) items.
-Definition props (items : list bs_item) := flat_map (fun it => match it with IProp p => [p] | _ => [] end) items.
-Definition prnts (items : list bs_item) := flat_map (fun it => match it with IPrnt r => [r] | _ => [] end) items.
-Definition unknowns (items : list bs_item) := flat_map (fun it => match it with IUnknown n d => [(n, d)] | _ => [] end) items.
+Definition bs_metas (items : list bs_item) := flat_map (fun it => match it with IMeta l => [l] | _ => [] end) items.
+Definition bs_sstrs (items : list bs_item) := flat_map (fun it => match it with ISstr l => [l] | _ => [] end) items.
+Definition bs_insts (items : list bs_item) := flat_map (fun it => match it with IInst c => [c] | _ => [] end) items.
+Definition bs_props (items : list bs_item) := flat_map (fun it => match it with IProp p => [p] | _ => [] end) items.
+Definition bs_prnts (items : list bs_item) := flat_map (fun it => match it with IPrnt r => [r] | _ => [] end) items.
+Definition bs_unknowns (items : list bs_item) := flat_map (fun it => match it with IUnknown n d => [(n, d)] | _ => [] end) items.
 Definition is_end (it : bs_item) : bool := match it with IEnd => true | _ => false end.
 
 Fixpoint nodup_N (l : list N) : bool := match l with [] => true | x :: r => negb (mem x r) && nodup_N r end.
-Definition inst_total (cs : list bs_class) : nat := fold_right (fun c a => (length (bc_refs c) + a)%nat) O cs.
+Definition inst_total (cs : list bs_class) : nat := fold_right (fun c a => (length (cls_refs c) + a)%nat) O cs.
 
 (* ---- structural clauses (C03), as boolean functions of the header counts and the decoded chunk list *)
 (* doc (File Header): "Class Count: Number of distinct classes in the file (i.e. the number of INST chunks)", "Instance Count:
    Number of instances in the file" *)
 Definition cl_header_counts (hdr : Z * Z) (items : list bs_item) : bool :=
-  Z.eqb (fst hdr) (Z.of_nat (length (insts items))) && Z.eqb (snd hdr) (Z.of_nat (inst_total (insts items))).
+  Z.eqb (fst hdr) (Z.of_nat (length (bs_insts items))) && Z.eqb (snd hdr) (Z.of_nat (inst_total (bs_insts items))).
 (* doc (INST): "Class ID must be unique ... among all INST chunks" / "There should be one INST chunk for each type of instance" *)
-Definition cl_unique_class_ids (items : list bs_item) : bool := nodup_N (List.map bc_id (insts items)).
+Definition cl_unique_class_ids (items : list bs_item) : bool := nodup_N (List.map cls_id (bs_insts items)).
 Fixpoint nodup_bytes (l : list bytes) : bool :=
   match l with [] => true | x :: r => negb (existsb (bytes_eqb x) r) && nodup_bytes r end.
-Definition cl_unique_class_names (items : list bs_item) : bool := nodup_bytes (List.map bc_name (insts items)).
+Definition cl_unique_class_names (items : list bs_item) : bool := nodup_bytes (List.map cls_name (bs_insts items)).
 (* doc (PROP): Values' "length is equal to the number of instances belonging to Class ID" *)
 Definition class_count (cs : list bs_class) (id : N) : option nat :=
-  seen_count (List.map (fun c => (bc_id c, length (bc_refs c))) cs) id.
+  seen_count (List.map (fun c => (cls_id c, length (cls_refs c))) cs) id.
 Definition cl_prop_lengths (items : list bs_item) : bool :=
   forallb (fun p => match bp_body p with
-                    | BValues c => match class_count (insts items) (bp_class p) with
+                    | BValues c => match class_count (bs_insts items) (bp_class p) with
                                    | Some n => Nat.eqb (bs_col_len c) n | None => false end
-                    | _ => true end) (props items).
+                    | _ => true end) (bs_props items).
 (* every written instance appears exactly once (as a child) in PRNT, and children are listed before their parents:
    the parent of every row is the null referent or the child of a LATER row *)
 Fixpoint count_Z (x : Z) (l : list Z) : nat :=
@@ -625,20 +625,20 @@ Fixpoint children_first (rows : list (Z * Z)) : bool :=
   | [] => true
   | (c, p) :: r => (Z.eqb p (-1) || memZ p (List.map fst r)) && children_first r
   end.
-Definition all_refs (cs : list bs_class) : list Z := flat_map bc_refs cs.
+Definition all_refs (cs : list bs_class) : list Z := flat_map cls_refs cs.
 Definition cl_prnt_once (items : list bs_item) : bool :=
-  match prnts items with
+  match bs_prnts items with
   | [rows] =>
     let kids := List.map fst rows in
-    forallb (fun r => Nat.eqb (count_Z r kids) 1) (all_refs (insts items))
-    && Nat.eqb (length rows) (length (all_refs (insts items)))
+    forallb (fun r => Nat.eqb (count_Z r kids) 1) (all_refs (bs_insts items))
+    && Nat.eqb (length rows) (length (all_refs (bs_insts items)))
   | _ => false
   end.
 Definition cl_prnt_children_first (items : list bs_item) : bool :=
-  match prnts items with [rows] => children_first rows | _ => false end.
+  match bs_prnts items with [rows] => children_first rows | _ => false end.
 (* each distinct SharedString is stored once *)
 Definition cl_sstr_distinct (items : list bs_item) : bool :=
-  forallb (fun l => nodup_bytes (List.map snd l)) (sstrs items).
+  forallb (fun l => nodup_bytes (List.map snd l)) (bs_sstrs items).
 (* the last chunk, and only the last, is END *)
 Fixpoint end_last (items : list bs_item) : bool :=
   match items with
@@ -653,15 +653,15 @@ Definition opt_single {A} (code : N) (l : list A) : res (option A) :=
 
 Definition bs_assemble (hdr : Z * Z) (items : list bs_item) : res bs_file :=
   if negb (end_last items) then Err (if existsb is_end items then BS_DUP_CHUNK else BS_NO_END) else
-  m <- opt_single BS_DUP_CHUNK (metas items) ;;
-  s <- opt_single BS_DUP_CHUNK (sstrs items) ;;
-  p <- opt_single BS_DUP_CHUNK (prnts items) ;;
+  m <- opt_single BS_DUP_CHUNK (bs_metas items) ;;
+  s <- opt_single BS_DUP_CHUNK (bs_sstrs items) ;;
+  p <- opt_single BS_DUP_CHUNK (bs_prnts items) ;;
   match p with
   | None => Err BS_NO_PRNT
   | Some rows =>
     if negb (cl_unique_class_ids items) then Err BS_DUP_CLASS_ID else
     if negb (cl_header_counts hdr items) then Err BS_HEADER_COUNTS else
-    Ok (mkFile m s (insts items) (props items) rows (unknowns items))
+    Ok (mkFile m s (bs_insts items) (bs_props items) rows (bs_unknowns items))
   end.
 
 (* chunk-level entry: header counts + (name, decompressed data) of every chunk, END included *)
@@ -671,15 +671,15 @@ Definition bspec_decode_chunks (rd : bs_reading) (hdr : Z * Z) (chunks : list (b
 (* ================================================================ file header and chunk framing *)
 (* doc (File Header): | Magic Number 8 bytes `<roblox!` | Signature 6 bytes `89 ff 0d 0a 1a 0a` | Version u16 Always 0 |
    Class Count i32 | Instance Count i32 | Reserved 8 bytes Always 0 | *)
-Definition FILE_MAGIC : bytes := [60; 114; 111; 98; 108; 111; 120; 33].
-Definition FILE_SIGNATURE : bytes := [137; 255; 13; 10; 26; 10].
+Definition BS_FILE_MAGIC : bytes := [60; 114; 111; 98; 108; 111; 120; 33].
+Definition BS_FILE_SIGNATURE : bytes := [137; 255; 13; 10; 26; 10].
 Definition e_i32le (z : Z) : bytes := le_bytes 4 (wrap_u 32 z).
 Definition bs_enc_header (hdr : Z * Z) : bytes :=
-  FILE_MAGIC ++ FILE_SIGNATURE ++ le_bytes 2 0 ++ e_i32le (fst hdr) ++ e_i32le (snd hdr) ++ le_bytes 8 0.
+  BS_FILE_MAGIC ++ BS_FILE_SIGNATURE ++ le_bytes 2 0 ++ e_i32le (fst hdr) ++ e_i32le (snd hdr) ++ le_bytes 8 0.
 Definition p_header : parser (Z * Z) :=
   m <~ read_exact 8 ;; s <~ read_exact 6 ;; v <~ read_le 2 ;;
   cc <~ read_le_i 4 32 ;; ic <~ read_le_i 4 32 ;; r <~ read_le 8 ;;
-  if bytes_eqb m FILE_MAGIC && bytes_eqb s FILE_SIGNATURE && N.eqb v 0 && N.eqb r 0 then pret (cc, ic)
+  if bytes_eqb m BS_FILE_MAGIC && bytes_eqb s BS_FILE_SIGNATURE && N.eqb v 0 && N.eqb r 0 then pret (cc, ic)
   else pfail BS_HEADER.
 
 (* doc (Chunks): | Chunk Name 4 bytes | Compressed Length u32 | Uncompressed Length u32 | Reserved 4 bytes Always 0 | Chunk Data |
@@ -874,8 +874,8 @@ Fixpoint all_instances (sstr : list (bytes * bytes)) (label_of : Z -> N) (ps : l
   match cs with
   | [] => Ok []
   | c :: r =>
-    cols <- class_cols sstr label_of (bc_id c) ps ;;
-    here <- class_instances (bc_name c) (bc_refs c) O cols ;;
+    cols <- class_cols sstr label_of (cls_id c) ps ;;
+    here <- class_instances (cls_name c) (cls_refs c) O cols ;;
     rest <- all_instances sstr label_of ps r ;;
     Ok (here ++ rest)
   end.
@@ -891,14 +891,14 @@ Definition bspec_to_dom (f : bs_file) : res (list bs_node) :=
   let kids := List.map fst (bf_prnt f) in
   let label_of := fun r => match index_Z r kids 1 with Some k => k | None => 0 end in
   let sstr := match bf_sstr f with Some l => l | None => [] end in
-  insts <- all_instances sstr label_of (bf_props f) (bf_classes f) ;;
-  if negb (Nat.eqb (length insts) (length kids)) then Err BS_DOM_PRNT else
+  allinst <- all_instances sstr label_of (bf_props f) (bf_classes f) ;;
+  if negb (Nat.eqb (length allinst) (length kids)) then Err BS_DOM_PRNT else
   (fix go (rows : list (Z * Z)) (k : N) : res (list bs_node) :=
      match rows with
      | [] => Ok []
      | (c, p) :: r =>
        if negb (Nat.eqb (count_Z c kids) 1) then Err BS_DOM_PRNT else
-       match find_Z c insts with
+       match find_Z c allinst with
        | None => Err BS_DOM_PRNT
        | Some (cname, ps) =>
          let '(nm, ps') := take_name ps in
@@ -1017,9 +1017,9 @@ Definition known_name (n : bytes) : bool :=
   || bytes_eqb n NAME_PRNT || bytes_eqb n NAME_END.
 
 Definition class_ok (c : bs_class) : bool :=
-  u32_ok (bc_id c) && str_ok (bc_name c) && forallb in_i32 (bc_refs c) && len_ok (bc_refs c)
-  && (if bc_service c then Nat.eqb (length (bc_markers c)) (length (bc_refs c)) && bytes_ok (bc_markers c)
-      else match bc_markers c with [] => true | _ => false end).
+  u32_ok (cls_id c) && str_ok (cls_name c) && forallb in_i32 (cls_refs c) && len_ok (cls_refs c)
+  && (if cls_service c then Nat.eqb (length (cls_markers c)) (length (cls_refs c)) && bytes_ok (cls_markers c)
+      else match cls_markers c with [] => true | _ => false end).
 Definition prop_ok (cs : list bs_class) (p : bs_prop) : bool :=
   u32_ok (bp_class p) && str_ok (bp_name p) &&
   match class_count cs (bp_class p) with
@@ -1039,7 +1039,7 @@ Definition bs_wf (f : bs_file) : bool :=
   match bf_meta f with Some l => len_ok l && forallb kv_ok l | None => true end
   && match bf_sstr f with Some l => len_ok l && forallb sstr_entry_ok l | None => true end
   && forallb class_ok (bf_classes f)
-  && nodup_N (List.map bc_id (bf_classes f))
+  && nodup_N (List.map cls_id (bf_classes f))
   && forallb (prop_ok (bf_classes f)) (bf_props f)
   && forallb (fun t => in_i32 (fst t) && in_i32 (snd t)) (bf_prnt f) && len_ok (bf_prnt f)
   && forallb (fun t => Nat.eqb (length (fst t)) 4 && bytes_ok (fst t) && negb (known_name (fst t))
@@ -1050,7 +1050,7 @@ Definition bs_wf (f : bs_file) : bool :=
 (* what the document additionally asks of a file ("should"): the service markers are all 1, the hierarchy lists every instance
    exactly once, referents are distinct *)
 Definition bs_doc_wf (f : bs_file) : bool :=
-  forallb (fun c => forallb (N.eqb 1) (bc_markers c)) (bf_classes f)
+  forallb (fun c => forallb (N.eqb 1) (cls_markers c)) (bf_classes f)
   && forallb (fun r => Nat.eqb (count_Z r (all_refs (bf_classes f))) 1) (all_refs (bf_classes f))
   && forallb (fun r => Nat.eqb (count_Z r (List.map fst (bf_prnt f))) 1) (all_refs (bf_classes f))
   && Nat.eqb (length (bf_prnt f)) (length (all_refs (bf_classes f)))
